@@ -139,11 +139,18 @@ pub fn run(cfg: &Cfg, log: &mut Log) {
                 }
             }
             // flush failure
-            let mut sink = IoSink::new();
-            sink.flush_fails = true;
-            let g = rc.root.ser_guarded(&v, &mut sink);
-            judge_fail(log, &format!("C13/flush/{}", class), rc.name, &v, "flush fails", &g, &sink, &clean, &enc.care, true);
-            log.count("flush_failures", 1);
+            // (every error kind: a flush that keeps answering Interrupted,
+            // WouldBlock, ... has still failed and must not be reported as success)
+            for kind in [std::io::ErrorKind::Other, std::io::ErrorKind::Interrupted, std::io::ErrorKind::WouldBlock,
+                         std::io::ErrorKind::TimedOut, std::io::ErrorKind::WriteZero, std::io::ErrorKind::BrokenPipe] {
+                let mut sink = IoSink::new();
+                sink.flush_fails = true;
+                sink.flush_kind = kind;
+                let g = rc.root.ser_guarded(&v, &mut sink);
+                let tag = if kind == std::io::ErrorKind::Other { format!("C13/flush/{}", class) } else { format!("C13/flush-{:?}/{}", kind, class) };
+                judge_fail(log, &tag, rc.name, &v, &format!("flush fails ({:?})", kind), &g, &sink, &clean, &enc.care, true);
+                log.count("flush_failures", 1);
+            }
             // short-write and interrupted-retry patterns
             let pats: Vec<(String, Chunk, usize)> = vec![
                 ("1 byte per call".into(), Chunk::Fixed(1), 0),
